@@ -147,9 +147,10 @@ def step (s : State) (toks : List String) (impl : String) : State × Res :=
     match parseList? parseRule? enc ";" with
     | some rules =>
       -- WithAddressRewriteRules: sanitize every rule, then (NewAgent) newAddressRewriteMapper
-      match sanitizeAll rules with
-      | .error e => newRes .option rules [] (.error e) impl
-      | .ok clean => newRes .option rules clean (newMapper clean) impl
+      let clean := match sanitizeAll rules with
+        | .error _ => []
+        | .ok clean => clean
+      newRes .option rules clean (optionPath rules) impl
     | none => (s, bad "rewrite new: opt")
   | ["new", "legacy", ty, enc] =>
     match ty.toNat?, parseList? parseEntry? enc "," with
